@@ -228,6 +228,10 @@ def gen_history(rng, steps):
                 call()
                 w.next += 1
                 log.append(f"c{i}.add_{pk}_gate({qs}, {txt})")
+                if isinstance(ang, dict):  # the caller's dict is the caller's: later changes must not reach the circuit
+                    for k_ in list(ang):
+                        ang[k_] = 12.5
+                    ang[CONST] = -7.25
             except ValueError:
                 log.append(f"c{i}.add_{pk}_gate({qs}, {txt}) -> ValueError")
             ops.append(f"oAddPG {i}%nat {ktxt} {coqeval.natlist(qs)} {txt}")
